@@ -259,7 +259,7 @@ func genText(c *RunCtx, prop string) []*Batch {
 			mask := []int{0, 15, r.Intn(16)}[r.Intn(3)]
 			conf := eval.CopyConfig(tcP.conf)
 			delete(conf.CompileOptions, eval.Optimize)
-			for kk, v := range optSubset(mask, false) {
+			for kk, v := range optSubset(mask, true) { // every switch explicit: the base configuration has them all off
 				conf.CompileOptions[eval.CompileOption(kk)] = v
 			}
 			if r.Intn(3) == 0 {
@@ -303,6 +303,9 @@ func genText(c *RunCtx, prop string) []*Batch {
 					// a reordered and/or may fail on another operand first: only values are promised
 					if o1.Err == nil && o2.Err == nil {
 						c.Direct = append(c.Direct, DirectViolation{What: fmt.Sprintf("recompiled Dump returns %v, original %v", o2.Val, o1.Val), Sig: "c13-result", Sample: map[string]interface{}{"source": src, "dump": d}})
+					} else if o1.Err == nil && o1.Panic == nil && o2.Err != nil {
+						// the round trip never loses a result (C13_recompiled_keeps_value): the original returned a value
+						c.Direct = append(c.Direct, DirectViolation{What: fmt.Sprintf("the original returns %v but the program recompiled from its Dump fails: %v", o1.Val, o2.Err), Sig: "c13-lost-result", Sample: map[string]interface{}{"source": src, "dump": d}})
 					}
 				}
 			}
@@ -340,14 +343,21 @@ func genText(c *RunCtx, prop string) []*Batch {
 			}
 			// the formatter, once and twice, also on a source with comments
 			withCmt := ";;;; reordering:false\n" + strings.Replace(src, " ", " ; c1 (x\n ", 1)
-			for _, s0 := range []string{src, withCmt, relayout(r, toks, false)} {
+			tcInf := textConf{conf: eval.CopyConfig(tcP.conf), coq: tcP.coq, infix: true}
+			tcInf.conf.CompileOptions[eval.InfixNotation] = true
+			infSrc := infixRender(r, infixTree(r, 1+r.Intn(3)), 0) // infix sources too: bracket lists, calls, `!`
+			for si, s0 := range []string{src, withCmt, relayout(r, toks, false), infSrc} {
+				lexConf := tcP.conf
+				if si == 3 {
+					lexConf = tcInf.conf
+				}
 				f1 := eval.IndentByParentheses(s0)
 				b.Cases = append(b.Cases, Case{Term: fmt.Sprintf("TCIndent %s %s", coqStr(s0), coqStr(f1)), Key: "indent" + s0, Nontrivial: true, Tags: []string{"kind:indent"},
 					Sample: map[string]interface{}{"indent_input": clip(s0, 160)}})
-				t0, e0 := eval.VerifLex(tcP.conf, s0)
-				t1, e1 := eval.VerifLex(tcP.conf, f1)
+				t0, e0 := eval.VerifLex(lexConf, s0)
+				t1, e1 := eval.VerifLex(lexConf, f1)
 				f2 := eval.IndentByParentheses(f1)
-				t2, e2 := eval.VerifLex(tcP.conf, f2)
+				t2, e2 := eval.VerifLex(lexConf, f2)
 				if e0 != nil {
 					continue
 				}
@@ -481,6 +491,14 @@ func infixTree(r *Rand, d int) *GT {
 		case 1:
 			return gconst(strLits[r.Intn(len(strLits))])
 		case 2:
+			if r.Bool() {
+				// string lists in brackets: the first literal is glued to `[` (strings with runs of spaces, parentheses, `;`)
+				ls := make([]string, 1+r.Intn(3))
+				for i := range ls {
+					ls[i] = strLits[r.Intn(len(strLits))]
+				}
+				return gconst(ls)
+			}
 			l := make([]int64, 1+r.Intn(3)) // bracket lists with negative elements at any position: [1 -2 3]
 			for i := range l {
 				l[i] = int64(r.Intn(9)) - 4
